@@ -617,11 +617,17 @@ _zuc_eia3_16_buffer_avx512(const void *const pKey[NUM_AVX512_BUFS],
         const uint32_t keyStreamLengthInBits = ZUC_KEYSTR_LEN * 8;
         DECLARE_ALIGNED(uint16_t lens[NUM_AVX512_BUFS], 32);
 
+        /* 8 bytes of keystream are enough for the last common round
+         * only if no buffer is longer than the common length */
+        unsigned int allCommonBits = 1;
+
         for (i = 0; i < NUM_AVX512_BUFS; i++) {
                 pIn8[i] = (const uint8_t *) pBufferIn[i];
                 keys.pKeys[i] = pKey[i];
                 memcpy(ivs + i * 32, pIv[i], 16);
                 lens[i] = (uint16_t) lengthInBits[i];
+                if (lengthInBits[i] != commonBits)
+                        allCommonBits = 0;
         }
 
         init_16(&keys, ivs, &state, 0xFFFF, use_gfni);
@@ -633,7 +639,7 @@ _zuc_eia3_16_buffer_avx512(const void *const pKey[NUM_AVX512_BUFS],
                 remainCommonBits -= keyStreamLengthInBits;
                 numKeyStr++;
                 /* Generate the next key stream 8 bytes or 64 bytes */
-                if (!remainCommonBits)
+                if (!remainCommonBits && allCommonBits)
                         keystr_8B_gen_16(&state, keyStr, 64, use_gfni);
                 else
                         keystr_64B_gen_16(&state, keyStr, 64, use_gfni);
